@@ -7,6 +7,9 @@ from common import *
 import c03, gopipe
 
 
+STAGES = ("core", "mono", "lift", "anf")
+
+
 def prep(ir):
     ir = c03.prune(ir)
 
@@ -25,7 +28,7 @@ def prep(ir):
             for x in v:
                 fix(x)
     out = {}
-    for st in ("mono", "lift", "anf"):
+    for st in STAGES:
         fix(ir[st]["fns"])
         out[st] = {"fns": ir[st]["fns"]}
     return out
@@ -63,7 +66,7 @@ def run_stages(items, name):
         for c in ex.map(one, range(len(chunks))):
             states += c.distinct or 0
             for r in c.json_prints("IRRUN"):
-                out[r["id"]] = {st: {"status": r[st]["status"], "why": r[st]["why"], "out": bytes(r[st]["out"])} for st in ("mono", "lift", "anf")}
+                out[r["id"]] = {st: {"status": r[st]["status"], "why": r[st]["why"], "out": bytes(r[st]["out"])} for st in STAGES}
     for f in files:
         os.remove(f)
     return out, states, skipped
